@@ -257,7 +257,13 @@ where {
 
         // Cleartext body
         writer.write_all(self.csf_encoded_text.as_bytes())?;
-        writer.write_all(b"\n")?;
+        if self.csf_encoded_text.ends_with('\r') {
+            // The line ending before the signature is not part of the text, and a reader removes
+            // a CR LF pair as one line ending: keep a CR that ends the text apart from it.
+            writer.write_all(b"\r\n")?;
+        } else {
+            writer.write_all(b"\n")?;
+        }
 
         /// A signature wrapper that serializes complete with packet header
         struct SerializableSignatures<'a>(&'a [Signature]);
